@@ -6,6 +6,7 @@
 #   -R:<commit>: revert that commit of /repo (used to confirm that a fix: commit is what makes the check pass)
 set -u
 NAME="$1"; CHG="$2"; PROP="$3"; TIER="${4:-quick}"; shift 4 2>/dev/null
+case "$CHG" in -R:*) ;; /*) ;; *) CHG="$(pwd)/$CHG";; esac
 V="$(cd "$(dirname "$0")/.." && pwd)"
 WT="/tmp/h4mut-$NAME"
 git -C /repo worktree remove --force "$WT" >/dev/null 2>&1
